@@ -247,7 +247,10 @@ class C10(Check):
                     except Exception:  # noqa: BLE001
                         pass
                     eng.claim("after exhaustion / close / error next() stops", stopped)
-                    for nm, f in (("set_frame_duration", lambda: it.set_frame_duration(5)), ("set_render_size", lambda: it.set_render_size(size)), ("set_padding", lambda: it.set_padding(P.ExactPadding()))):
+                    Seek = K["Seek"]
+                    for nm, f in (("set_frame_duration", lambda: it.set_frame_duration(5)), ("set_render_size", lambda: it.set_render_size(size)), ("set_padding", lambda: it.set_padding(P.ExactPadding())),
+                                  ("seek(0, START)", lambda: it.seek(0)), ("seek(0, CURRENT)", lambda: it.seek(0, Seek.CURRENT)), ("seek(0, END)", lambda: it.seek(0, Seek.END)),
+                                  ("seek(-1, CURRENT)", lambda: it.seek(-1, Seek.CURRENT))):
                         try:
                             f()
                             ok = False
